@@ -169,6 +169,12 @@ def run(ck):
         and declref(f2, a2[1], ds.params[0]['d']) is not None and \
         any(f2.nodes[j]['k'] == 'DeclRefExpr' and f2.nodes[j].get('d') == ds.params[1]['d'] for j in value_sources(f2, a2[0]))
     ck.ob('C12.dh', 'C12.dh/same-group', okp, ds.loc(), 'public = g^private mod p and secret = remote^private mod p use the same prime and the private scalar as exponent')
+    # the only reduction applied to the peer's value on its way into modexp is `% p` with the group's prime (any other modulus maps
+    # the in-range value p - 1 to something else, and the two ends no longer compute the same scalar)
+    mods = [i for i in ds.walk() if ds.nodes[i]['k'] in ('BinaryOperator', 'CompoundAssignOperator') and ds.nodes[i].get('op') in ('%', '%=')]
+    bad_mod = [i for i in mods if const_value(ds, ds.kids(i)[1]) != kprime or ds.nodes[ds.strip(ds.kids(i)[1])].get('n') != 'kPrime']
+    ck.ob('C12.dh', 'C12.dh/reduction-modulus', not bad_mod, ds.loc(bad_mod[0]) if bad_mod else ds.loc(),
+          'derive_shared_secret reduces the peer value, if at all, modulo kPrime itself (found %d reduction(s))' % len(mods))
     dg = [i for i in ds.walk() if ds.nodes[i].get('callee') == 'ephemeralnet::crypto::Sha256::digest']
     okd = len(dg) == 1 and any(j == ds.strip(c2) for j in value_sources(ds, ds.call_args(dg[0])[0]))
     ck.ob('C12.dh', 'C12.dh/secret-is-digest-of-scalar', okd, ds.loc(), 'the shared secret is SHA-256 over the bytes of the shared scalar only')
